@@ -17,9 +17,10 @@ EXTENDS Integers, Sequences, FiniteSets, TLC, Json, LogOps
 CONSTANTS TraceFile
 Trace == ndJsonDeserialize(TraceFile)
 
-VARIABLES l, hist, closer, viol, nread, bad
+VARIABLES l, hist, closer, viol, nread, bad,
+          thr    \* content id -> number of completed fsyncs at which its batch became durable (-1: unknown)
 
-vars == <<l, hist, closer, viol, nread, bad>>
+vars == <<l, hist, closer, viol, nread, bad, thr>>
 
 Ev == Trace[l]
 Is(k) == l <= Len(Trace) /\ Ev.ev = k
@@ -27,14 +28,15 @@ Adv == l' = l + 1
 V(clause) == viol' = viol \cup {[line |-> l, clause |-> clause]}
 Cur == hist[Len(hist)]
 
-Init == l = 1 /\ hist = <<Empty>> /\ closer = FALSE /\ viol = {} /\ nread = 0 /\ bad = FALSE
+Init == l = 1 /\ hist = <<Empty>> /\ closer = FALSE /\ viol = {} /\ nread = 0 /\ bad = FALSE /\ thr = <<>>
 
-Reset == /\ Is("reset") /\ Adv /\ hist' = <<Empty>> /\ closer' = Ev.withCloser /\ bad' = FALSE
+Reset == /\ Is("reset") /\ Adv /\ hist' = <<Empty>> /\ closer' = Ev.withCloser /\ bad' = FALSE /\ thr' = <<>>
          /\ UNCHANGED <<viol, nread>>
 
 (* writer calls, in program order *)
 WOp ==
   /\ Is("wop") /\ Adv /\ UNCHANGED <<closer, nread, bad>>
+  /\ thr' = IF Ev.op = "store" THEN [c \in DOMAIN thr \cup {Ev.cid} |-> IF c = Ev.cid THEN Ev.thr ELSE thr[c]] ELSE thr
   /\ LET nxt == IF Ev.res # "ok" THEN Cur
                 ELSE IF Ev.op = "store" THEN ApplyStore(Cur, <<Ev.idx>>, <<Ev.cid>>)
                 ELSE IF Ev.op \in {"delh", "delt"} THEN ApplyDel(Cur, Ev.idx, Ev.idx)
@@ -48,13 +50,15 @@ WOp ==
 States(from, to) == {hist[k + 1] : k \in {x \in from..to : x + 1 <= Len(hist)}}
 
 Read ==
-  /\ Is("read") /\ Adv /\ UNCHANGED <<hist, closer, bad>> /\ nread' = nread + 1
+  /\ Is("read") /\ Adv /\ UNCHANGED <<hist, closer, bad, thr>> /\ nread' = nread + 1
   /\ LET S == States(Ev.from, Ev.to) IN
      IF Ev.res = "closed" THEN (IF closer /\ Ev.cs = 1 THEN UNCHANGED viol ELSE V("ClosedWithoutClose"))
      ELSE IF Ev.kind = "first" THEN
           (IF Ev.res = "ok" /\ \E s \in S : First(s) = Ev.val THEN UNCHANGED viol ELSE V("FirstUnjustified"))
      ELSE IF Ev.kind = "last" THEN
           (IF Ev.res = "ok" /\ \E s \in S : Last(s) = Ev.val THEN UNCHANGED viol ELSE V("LastUnjustified"))
+     ELSE IF Ev.res = "ok" /\ Ev.val \in DOMAIN thr /\ thr[Ev.val] > 0 /\ Ev.sd < thr[Ev.val]
+          THEN V("VisibleBeforeDurable")      \* C06: the entry was returned before the fsync of its batch completed
      ELSE IF Ev.res = "ok" THEN
           (IF \E s \in S : Get(s, Ev.idx) = Ev.val THEN UNCHANGED viol
            ELSE IF \A s \in S : Get(s, Ev.idx) = 0 THEN V("ReadPhantom") ELSE V("ReadWrongContent"))
@@ -67,37 +71,37 @@ Read ==
            THEN UNCHANGED viol ELSE V("ReadError"))
 
 StableEv ==
-  /\ Is("stable") /\ Adv /\ UNCHANGED <<hist, closer, nread, bad>>
+  /\ Is("stable") /\ Adv /\ UNCHANGED <<hist, closer, nread, bad, thr>>
   /\ IF Ev.res = "ok" THEN (IF Ev.op = "get" /\ Ev.val # "v1" THEN V("StableWrong") ELSE UNCHANGED viol)
      ELSE IF Ev.res = "closed" /\ closer /\ Ev.cs = 1 THEN UNCHANGED viol
      ELSE V("StableError")
 
-CloseEv == /\ Is("close") /\ Adv /\ UNCHANGED <<hist, closer, nread, bad>>
+CloseEv == /\ Is("close") /\ Adv /\ UNCHANGED <<hist, closer, nread, bad, thr>>
            /\ IF Ev.res = "ok" THEN UNCHANGED viol ELSE V("CloseError")
-Close2 == /\ Is("close2") /\ Adv /\ UNCHANGED <<hist, closer, nread, bad>>
+Close2 == /\ Is("close2") /\ Adv /\ UNCHANGED <<hist, closer, nread, bad, thr>>
           /\ IF Ev.res = "ok" THEN UNCHANGED viol ELSE V("SecondCloseNotNoop")
-PostClose == /\ Is("postclose") /\ Adv /\ UNCHANGED <<hist, closer, nread, bad>>
+PostClose == /\ Is("postclose") /\ Adv /\ UNCHANGED <<hist, closer, nread, bad, thr>>
              /\ IF Ev.res = "closed" THEN UNCHANGED viol ELSE V("NotClosedAfterClose")
-Goroutines == /\ Is("goroutines") /\ Adv /\ UNCHANGED <<hist, closer, nread, bad>>
+Goroutines == /\ Is("goroutines") /\ Adv /\ UNCHANGED <<hist, closer, nread, bad, thr>>
               /\ IF Ev.rotator THEN V("RotatorStillRunning") ELSE UNCHANGED viol
-Handles == /\ Is("handles") /\ Adv /\ UNCHANGED <<hist, closer, nread, bad>>
+Handles == /\ Is("handles") /\ Adv /\ UNCHANGED <<hist, closer, nread, bad, thr>>
            /\ IF Ev.n # 0 THEN V("HandlesLeaked") ELSE UNCHANGED viol
-PanicEv == /\ Is("panic") /\ Adv /\ UNCHANGED <<hist, closer, nread, bad>> /\ V("Panic")
-Stuck == /\ Is("stuck") /\ Adv /\ UNCHANGED <<hist, closer, nread, bad>> /\ V("Deadlock")
-OpenErr == /\ (Is("open") \/ Is("preload")) /\ Adv /\ UNCHANGED <<hist, closer, nread, bad>> /\ V("OpenFailed")
+PanicEv == /\ Is("panic") /\ Adv /\ UNCHANGED <<hist, closer, nread, bad, thr>> /\ V("Panic")
+Stuck == /\ Is("stuck") /\ Adv /\ UNCHANGED <<hist, closer, nread, bad, thr>> /\ V("Deadlock")
+OpenErr == /\ (Is("open") \/ Is("preload")) /\ Adv /\ UNCHANGED <<hist, closer, nread, bad, thr>> /\ V("OpenFailed")
 
 (* everything acknowledged before Close is present after the next Open *)
 Reopen ==
-  /\ Is("reopen") /\ Adv /\ UNCHANGED <<hist, closer, nread, bad>>
+  /\ Is("reopen") /\ Adv /\ UNCHANGED <<hist, closer, nread, bad, thr>>
   /\ IF Ev.res # "ok" THEN V("ReopenFailed")
      ELSE IF Ev.first # First(Cur) \/ Ev.last # Last(Cur) THEN V("ReopenBounds")
      ELSE IF Ev.cids # Cur.c THEN V("ReopenContent")
      ELSE UNCHANGED viol
 
-Note == /\ l <= Len(Trace) /\ Ev.ev \in {"schedule", "note"} /\ Adv /\ UNCHANGED <<hist, closer, viol, nread, bad>>
+Note == /\ l <= Len(Trace) /\ Ev.ev \in {"schedule", "note"} /\ Adv /\ UNCHANGED <<hist, closer, viol, nread, bad, thr>>
 
 Finish == /\ l = Len(Trace) + 1 /\ PrintT(<<"VIOL", ToJson([v |-> viol, nobs |-> nread])>>) /\ l' = l + 1
-          /\ UNCHANGED <<hist, closer, viol, nread, bad>>
+          /\ UNCHANGED <<hist, closer, viol, nread, bad, thr>>
 
 Next == Reset \/ WOp \/ Read \/ StableEv \/ CloseEv \/ Close2 \/ PostClose \/ Goroutines \/ Handles \/ PanicEv
         \/ Stuck \/ OpenErr \/ Reopen \/ Note \/ Finish
